@@ -75,7 +75,7 @@ class Run:
 
     # -- running Rust harness binaries that follow the verifkit result protocol ---------------
     def _harness_cmd(self, binary, out, args, replay=None, journal=None):
-        cmd = [binary, self.prop, "--tier", self.tier, "--seed", str(self.seed), "--out", out]
+        cmd = [binary, self.prop, "--tier", getattr(self, "tier_override", None) or self.tier, "--seed", str(self.seed), "--out", out]
         keys = sorted(self.known["known"].keys())
         if keys:
             cmd += ["--known", ",".join(keys)]
